@@ -104,3 +104,15 @@ Proof.
     + now rewrite !skipn_nil.
     + apply IH.
 Qed.
+
+Lemma filter_length_le {A} (f : A -> bool) (l : list A) : length (filter f l) <= length l.
+Proof. induction l as [|x l IH]; cbn; auto. destruct (f x); cbn; lia. Qed.
+
+Lemma NoDup_app_snoc {A} (l : list A) x : NoDup l -> ~ In x l -> NoDup (l ++ [x]).
+Proof.
+  induction l as [|y l IH]; intros Hn Hx; cbn.
+  - constructor; [intros []|constructor].
+  - inversion Hn; subst. constructor.
+    + intros Hin. apply in_app_or in Hin as [Hin|[<-|[]]]; auto. apply Hx. now left.
+    + apply IH; auto. intros Hin. apply Hx. now right.
+Qed.
